@@ -51,6 +51,7 @@ type Ctx struct {
 	Assumptions []string
 	Explanation string
 	Extra  map[string]interface{}
+	vacuityDone bool
 }
 
 type ruleInfo struct {
@@ -135,8 +136,13 @@ func loadFindings() []Finding {
 
 // Finish applies vacuity guards and known findings, writes the evidence
 // file, prints VIOLATION / KNOWN-FINDING lines and returns the exit code.
-func (c *Ctx) Finish(t0 time.Time, writeEvidence bool) int {
-	// vacuity
+// vacuity adds an integrity failure for every rule that matched fewer
+// instances than were confirmed by hand (idempotent).
+func (c *Ctx) vacuity() {
+	if c.vacuityDone {
+		return
+	}
+	c.vacuityDone = true
 	var rids []string
 	for id := range c.rules {
 		rids = append(rids, id)
@@ -148,6 +154,53 @@ func (c *Ctx) Finish(t0 time.Time, writeEvidence bool) int {
 			c.add(id, "vacuous", "", Integrity, fmt.Sprintf("rule matched %d instances, needs >= %d (anchors moved or rule no longer sees the code)", ri.Instances, ri.Min))
 		}
 	}
+}
+
+// Unlisted returns the violations that known_findings.json does not list.
+func (c *Ctx) Unlisted() []*Obl {
+	c.vacuity()
+	known := map[string]bool{}
+	for _, f := range loadFindings() {
+		if f.Property == c.Prop && f.Status == "known" {
+			known[f.Key] = true
+		}
+	}
+	var out []*Obl
+	for _, o := range c.Obls {
+		if o.Status == Integrity || (o.Status == Viol && !known[o.Key]) {
+			out = append(out, o)
+		}
+	}
+	return out
+}
+
+// Merge adds the obligations of a second build configuration that the first
+// one does not already have with the same outcome.
+func (c *Ctx) Merge(o *Ctx) {
+	o.vacuity()
+	have := map[string]bool{}
+	for _, x := range c.Obls {
+		have[x.Rule+"|"+x.Key+"|"+fmt.Sprint(x.Status)] = true
+	}
+	for _, x := range o.Obls {
+		if have[x.Rule+"|"+x.Key+"|"+fmt.Sprint(x.Status)] {
+			continue
+		}
+		y := *x
+		y.Detail = "[" + o.Config + "] " + y.Detail
+		c.Obls = append(c.Obls, &y)
+		if ri := c.rules[y.Rule]; ri != nil && y.Status != Info {
+			ri.Instances++
+			if y.Status == Viol || y.Status == Integrity {
+				ri.Violations++
+			}
+		}
+	}
+	c.Config += "+" + o.Config
+}
+
+func (c *Ctx) Finish(t0 time.Time, writeEvidence bool) int {
+	c.vacuity()
 	known := map[string]Finding{}
 	for _, f := range loadFindings() {
 		if f.Property == c.Prop && f.Status == "known" {
